@@ -75,6 +75,12 @@ def check (j : Json) : Res := Id.run do
     r := { r with stats := "payout.refused" :: r.stats }
     if covered then
       r := { r with findings := ("monitor", "C02,C04", "covered_payout_is_made", s!"the stake covers purchased + payout but the call failed. {ctxt}") :: r.findings }
+  -- ---------------- C09: what is left of the provider's unbonding entries is still in the completion queue
+  if outcome == "ok" then
+    let lost := (J.arrOf j "ubds_post").filter (fun u => J.has u "queued" && !J.boolOf u "queued")
+    if !lost.isEmpty then
+      r := { r with findings := ("monitor", "C09,C04", "unbonding_stays_queued",
+        s!"after the payout {lost.length} unbonding entr(y/ies) of the provider are no longer in the staking module's completion queue: {(Json.arr lost.toArray).compress}. {ctxt}") :: r.findings }
   -- ---------------- C19: a payout is not signed by the unlocker, so it unlocks nothing — beyond the locked coins that the
   -- account's own delegation tracking says have left with it (never any in SDK 0.42.4, which does not persist that tracking)
   if J.has j "mva" then
